@@ -196,9 +196,8 @@ class NCCHReader(TypeReaderCryptoBase):
     # because it can have special encryption handling, this is set up beforehand
     _exefs_fp: 'BinaryIO'
 
-    # this lists the ranges of the exefs (start + end) and the keyslot to use
-    # the keyslot should alternate between main and extra for each entry, staring with main (for header)
-    _exefs_crypto_ranges: 'List[Tuple[int, int, int]]'
+    # this lists the ranges of the exefs (start + end) and if the extra keyslot is used for it
+    _exefs_crypto_ranges: 'List[Tuple[int, int, bool]]'
 
     exefs: 'Optional[ExeFSReader]'
     """The :class:`~.ExeFSReader` of the NCCH, if it has one."""
@@ -404,32 +403,30 @@ class NCCHReader(TypeReaderCryptoBase):
                 exefs_tmp_fp = self._open_section_generic(NCCHSection.ExeFS)
                 exefs_tmp = ExeFSReader(exefs_tmp_fp, closefd=False, _load_icon=False)
 
-                # Starting from 0 and the original keyslot, this is every place where the crypto changes.
-                # Example, 0 from 0x200 is original, then 0x200 to 0x380 is extra, then 0x380 to 0x400 is original,
-                # then 0x400 to 0x700 is extra, then 0x700 to 0x800 is original, etc. The list in this case would look
-                # like: [0x200, 0x380, 0x400, 0x700, 0x800]
-                # This is a set to prevent duplicates. It turns into a sorted list after.
-                crypto_changes_set = set()
+                # Every file that is not "icon" or "banner" uses the extra keyslot; the header, those two files and
+                # any space between files use the main keyslot. The ranges are relative to the start of the ExeFS
+                # (so each file starts 0x200 after its offset) and are stored as (start, end, uses_extra_keyslot).
+                extra_ranges = sorted((info.offset + 0x200, info.offset + info.size + 0x200)
+                                      for name, info in exefs_tmp.entries.items()
+                                      if name not in EXEFS_NORMAL_CRYPTO_FILES and info.size)
 
-                for name, info in exefs_tmp.entries.items():
-                    if name not in {'icon', 'banner'}:
-                        crypto_changes_set.add(info.offset + 0x200)
-                        crypto_changes_set.add(info.offset + info.size + 0x200)
-                crypto_changes_set.add(self.sections[NCCHSection.ExeFS].end)
-
-                crypto_changes = sorted(crypto_changes_set)
-
-                # This creates a list of start + end ranges, plus the keyslot used to decrypt them.
-                # In open_raw_section it is used to create multiple SubsectionIO objects based on one of two CTRFileIO
-                # objects, one for the main keyslot and one for extra. Then all of them are merged into one large
-                # file with SplitFileMerger to provide easy access to the full decrypted ExeFS.
+                # In open_raw_section this is used to create multiple SubsectionIO objects based on one of two
+                # CTRFileIO objects, one for the main keyslot and one for extra. Then all of them are merged into one
+                # large file with SplitFileMerger to provide easy access to the full decrypted ExeFS.
                 self._exefs_crypto_ranges = []
                 previous_offset = 0
-                previous_keyslot = self.main_keyslot
-                for offset in crypto_changes:
-                    self._exefs_crypto_ranges.append((previous_offset, offset, previous_keyslot))
-                    previous_offset = offset
-                    previous_keyslot = self.main_keyslot if previous_keyslot is self.extra_keyslot else self.extra_keyslot
+                for range_start, range_end in extra_ranges:
+                    range_start = max(range_start, previous_offset)
+                    if range_start > previous_offset:
+                        self._exefs_crypto_ranges.append((previous_offset, range_start, False))
+                    if range_end > range_start:
+                        self._exefs_crypto_ranges.append((range_start, range_end, True))
+                        previous_offset = range_end
+                    else:
+                        previous_offset = range_start
+                exefs_size = self.sections[NCCHSection.ExeFS].size
+                if exefs_size > previous_offset:
+                    self._exefs_crypto_ranges.append((previous_offset, exefs_size, False))
 
             # This will set up either the special ExeFS encryption from above, or a straightforward decryption
             # passthrough if not.
@@ -464,7 +461,7 @@ class NCCHReader(TypeReaderCryptoBase):
                 extra_io = self._open_section_generic(section, encryption=False)
                 extra_io = self._crypto.create_ctr_io(Keyslot.NCCHExtraKey, extra_io, region.iv)
                 for exefs_range in self._exefs_crypto_ranges:
-                    base_file = main_io if exefs_range[2] is self.main_keyslot else extra_io
+                    base_file = extra_io if exefs_range[2] else main_io
                     size = exefs_range[1] - exefs_range[0]
                     files.append((SubsectionIO(base_file, exefs_range[0], size), size))
 
